@@ -66,6 +66,16 @@ class CHECK(Check):
                         if n == 0 and fin == "":
                             continue
                         yield {"fam": "reg", "binary": False, "defs": defs, "linesize": 1, "content": "\n".join(combo) + (fin if n else "")}
+        # (a') a catch-all register (the Register base-class defaults: empty identifier, zero-width window) matches every peek,
+        # also the empty one at end of content: the loop must still stop there
+        catch = {"ident": "", "digits": 0, "fields": [{"k": "lit", "size": 6, "start": 0}], "delim": None}
+        for defs in ([catch], [{"ident": "A", "digits": 2, "fields": [{"k": "int", "size": 3, "start": 2}], "delim": None}, catch]):
+            for n in range(0, 4):
+                for combo in itertools.product(pool, repeat=n):
+                    for fin in ("\n", ""):
+                        if n == 0 and fin == "":
+                            continue
+                        yield {"fam": "reg", "binary": False, "defs": defs, "linesize": 1, "content": "\n".join(combo) + (fin if n else "")}
         # (c) blocks, (d) sections
         from .c12 import LINE_POOL as BL
         from .c13 import gen_secdefs, LINE_POOL as SL
